@@ -303,6 +303,9 @@ def _scatter(fn, name, assigns):
         return None
     if not any("molecules" in norm_src(v.right) and ("count" in norm_src(v.right) or "len" in norm_src(v.right)) for v in alloc):
         return "?", f"{name} is pre-allocated with a length that is not the molecule count"
+    nec = _scatter_necessary(fn, name, assigns)
+    if nec is not None:
+        return nec
     outer = [lp for lp in walk_no_nested(fn.node) if isinstance(lp, ast.For) and mol_order_source(lp.iter, assigns) == "Grouped"]
     if len(outer) != 1:
         return "?", "no single loop over self.loaders fills the list"
@@ -324,6 +327,48 @@ def _scatter(fn, name, assigns):
         return "Perm", f"store `{norm_src(st)}` does not write the zipped task at the zipped index"
     idx_src, task_src = il.iter.args
     return _scatter_sources(fn, assigns, ldr, idx_src, task_src)
+
+
+def _reads_id_column(fn, e, assigns, seen=None):
+    """Does the value of expression ``e`` depend (through local definitions and loop targets) on the image-id column of this batch's molecules?"""
+    from ..cfg import backward_slice_names
+    txt = norm_src(e)
+    for nm in backward_slice_names(fn.node, e):
+        for vv in assigns.get(nm, []):
+            txt += " " + norm_src(vv)
+    return ("IMAGE_ID_LABEL" in txt or "image-id" in txt) and ("self.molecules" in txt or "self._molecules" in txt)
+
+
+def _scatter_necessary(fn, name, assigns):
+    """Conditions every correct scatter into the pre-allocated list must meet, whatever its idiom (a refutation here is a violation; None = nothing refuted):
+
+    N1  the molecules of one tomogram are not necessarily stored contiguously or in any id order (add_tomogram may be called twice with one id, molecules may be
+        re-ordered), so the row a task is written to must be computed from the per-molecule image-id column of self.molecules;
+    N2  iterating self.loaders visits the tomograms in order of first appearance (group_by(maintain_order=True), clause 6) whereas argsort of the id column lists
+        the rows tomogram by tomogram in ascending id order: pairing the one with the other mis-assigns tasks as soon as ids do not first appear in ascending order."""
+    stores = [st for st in walk_no_nested(fn.node) if isinstance(st, ast.Assign) and
+              any(isinstance(t, ast.Subscript) and isinstance(t.value, ast.Name) and t.value.id == name for t in st.targets)]
+    for st in stores:
+        tgt = [t for t in st.targets if isinstance(t, ast.Subscript) and isinstance(t.value, ast.Name) and t.value.id == name][0]
+        if not _reads_id_column(fn, tgt.slice, assigns):
+            return "Perm", (f"`{norm_src(st)[:70]}`: the row index does not depend on the image-id column of self.molecules - rows of one tomogram are not "
+                            f"necessarily contiguous or in loader order")
+    for lp in walk_no_nested(fn.node):
+        if isinstance(lp, ast.For) and isinstance(lp.iter, ast.Call) and dotted(lp.iter.func) == "zip" and len(lp.iter.args) == 2 and \
+                any(st in list(ast.walk(lp)) for st in stores):
+            isrc, tsrc = lp.iter.args
+
+            def defs(x):
+                return assigns.get(x.id, []) if isinstance(x, ast.Name) else [x]
+
+            by_sorted = any(isinstance(c, ast.Call) and (dotted(c.func) or "").split(".")[-1] in ("argsort", "arg_sort", "lexsort") and _reads_id_column(fn, c, assigns)
+                            for v in defs(isrc) for c in ast.walk(v))
+            by_groups = any(isinstance(g, (ast.GeneratorExp, ast.ListComp)) and any(mol_order_source(gg.iter, assigns) == "Grouped" for gg in g.generators)
+                            for v in defs(tsrc) for g in ast.walk(v))
+            if by_sorted and by_groups:
+                return "Perm", (f"rows come from a sort of the image ids (ascending id order) but the tasks are concatenated over self.loaders (order of first "
+                                f"appearance): `for {norm_src(lp.target)} in {norm_src(lp.iter)[:60]}` pairs them position by position")
+    return None
 
 
 def _scatter_sources(fn, assigns, ldr, idx_src, task_src):
@@ -360,6 +405,22 @@ def _scatter_sources(fn, assigns, ldr, idx_src, task_src):
         return "Mol", (f"tasks of each per-tomogram loader are scattered into a list of length count(self.molecules) at the row indices whose "
                        f"image id equals that loader's key (`{why}`); groups keep row order (maintain_order=True, clause 6)")
     return "?", f"scatter indices `{why}` are not the rows whose image id equals the group's key"
+
+
+def batch_task_order_obligation(model, rep, clause):
+    """The batch loader's task list is in molecule order - shared with the properties that pair loaded subtomograms with molecules by position (C01, C02)."""
+    try:
+        f = model.func(BL + "construct_loading_tasks")
+    except Exception:
+        f = None
+    if f is None:
+        rep.error("BatchLoader.construct_loading_tasks not found")
+        return
+    order, why, node = task_order(model, f)
+    rep.instance("O.tasks", f.loc(node))
+    ok = True if order == "Mol" else (None if order == "?" else False)
+    rep.ob("O", BL + "construct_loading_tasks", "batch loading tasks are produced in the row order of self.molecules (subtomogram i is cropped around molecule i)",
+           ok, f"order = {order}: {why}", node=node, fn=f, clause=clause)
 
 
 def task_order_clause(model, rep, funcs):
